@@ -41,6 +41,9 @@ PROPS["C16"] = dict(
          "(each runs a real upstream.NewUpstream exchange)",
     assumptions=["loopback UDP/TCP delivery; 350 ms deadlines for silent legs"],
     trusted=["C16: the two legs are oracles (section variables); their own behaviour is C05/C06/C14"],
+    level_note="C16: proved for every query, every UDP reply and every outcome of the TCP leg, with both legs as arbitrary "
+               "functions (section variables); that the legs are the UDP transport and its sibling TCP transport for the "
+               "same address is observed with a fake server listening on UDP+TCP of one port.",
 )
 
 
